@@ -129,8 +129,10 @@ def gen_plan(rng, tier="quick"):
         recipe["data"]["zero_at"] = rng.randrange(npos)
     if rng.random() < 0.2 and (cls in ("exact", "sum")):
         recipe["dtype"] = "float32"
-    if rng.random() < 0.12 and npos > 1 and op["m"] not in O.PARTITIONS and not op["m"].startswith("fit"):
+    if rng.random() < 0.12 and npos > 1 and not op["m"].startswith("fit"):
         recipe["data"]["nan_at"] = rng.randrange(npos)     # a missing spectrum among the others
+    if rng.random() < 0.1 and not op["m"].startswith("fit"):
+        recipe["data"]["nan_bins"] = rng.choice([1, 3, 7])   # a few missing bins inside ordinary spectra
     sizes = dict((k, n) for k, n in dims)
     sizes["freq"] = recipe["nf"]
     if nd:
@@ -172,6 +174,7 @@ def gen_plan(rng, tier="quick"):
         "p_stall": rng.choice([0, 0, 0.03, 0.1]),
         "dup_concurrent": rng.random() < 0.5,
         "rv_funcs": rng.random() < 0.5,
+        "warn_mode": rng.choice(["ignore", "ignore", "always"]),
         "d": rng.randint(1, 3),
         "expected_points": rng.choice([200, 1000, 5000]),
     }
@@ -259,7 +262,7 @@ class _DetUUID:
         return uuid.UUID(int=(0x5EED << 96) | self.n)
 
 
-def install_seams(run_seed):
+def install_seams(run_seed, warn_mode="ignore"):
     import uuid
 
     import dask
@@ -267,7 +270,15 @@ def install_seams(run_seed):
     dask.config.set(scheduler="sync")
     uuid.uuid4 = _DetUUID()
     np.random.seed(run_seed % (2**32))
-    warnings.simplefilter("ignore")
+    if warn_mode == "always":
+        # the process lets warnings through (pytest, logging.captureWarnings, -W always ...): every warning then
+        # runs Python code at the place it is issued - also when that place is inside native code
+        from simkit.baton import showwarning_seam
+
+        warnings.simplefilter("always")
+        warnings.showwarning = showwarning_seam
+    else:
+        warnings.simplefilter("ignore")
     import logging
 
     logging.disable(logging.INFO)
@@ -308,7 +319,7 @@ def execute(arg):
     sim = Sim(arg["run_seed"], tape=arg.get("tape"), strict=arg.get("strict", False))
     if arg.get("plan_retries"):
         sim.count("plan_generation_retries", arg["plan_retries"])
-    install_seams(arg["run_seed"])
+    install_seams(arg["run_seed"], plan["cfg"].get("warn_mode", "ignore"))
     repo = build.repo_root()
     recipe, op, cfg = plan["recipe"], plan["op"], plan["cfg"]
     label = O.op_label(op)
@@ -654,4 +665,4 @@ ASSUMPTIONS = [
     "clause 2 tolerances: bit-exact for partitions/splits/to_energy; rtol 1e-9 (float64) for reductions that cross chunks; 1e-6 for cancellation-prone widths; 2e-3 for fits; a tolerance-class mismatch is discarded when a 1-ulp perturbation of the input moves the in-memory answer as much (conditioning guard)",
 ]
 # module_state_changed_by_tasks / intensify_rounds stay 0 on a tree whose tasks do not touch module-level state
-PROBES = ["sync_ok", "pair_computes", "max_tasks_in_flight", "preempt_inside_task", "fault.duplicate", "fault.duplicate_concurrent", "fault.stall", "fault.preempt_py", "c_sites_gil_held", "rendezvous_met"]
+PROBES = ["sync_ok", "pair_computes", "py_callbacks_in_task", "max_tasks_in_flight", "preempt_inside_task", "fault.duplicate", "fault.duplicate_concurrent", "fault.stall", "fault.preempt_py", "c_sites_gil_held", "rendezvous_met"]
